@@ -191,6 +191,25 @@ func cmdCheck(args []string) int {
 		}
 	}
 	groups := groupObligations(rr.obls)
+	// recorded findings that are not tied to a failing obligation are re-checked by running the real code
+	var runtimeKnown []Finding
+	for _, f := range kf.Findings {
+		if f.Property == *prop && strings.HasPrefix(f.Obligation, "runtime:") {
+			runtimeKnown = append(runtimeKnown, f)
+		}
+	}
+	var knownRuntimeLines []string
+	if len(runtimeKnown) > 0 {
+		res := knownFindingProbes(*repo, *prop, seed)
+		for _, f := range runtimeKnown {
+			id := strings.ReplaceAll(strings.TrimPrefix(f.Obligation, "runtime:"), "-", "_")
+			if r, ok := res[id]; ok && !r.Pass {
+				line := fmt.Sprintf("KNOWN-FINDING: property=%s %s %s (input class: %s)", *prop, f.Obligation, f.What, f.InputClass)
+				fmt.Println(line)
+				knownRuntimeLines = append(knownRuntimeLines, line)
+			}
+		}
+	}
 	replayDir := filepath.Join(verifDir, "replays", *prop)
 	os.MkdirAll(replayDir, 0o755)
 	violations := 0
@@ -302,6 +321,7 @@ func cmdCheck(args []string) int {
 		v := thoroughExtras(*repo, *prop, seed, extra)
 		violations += v
 	}
+	knownPrinted = append(knownPrinted, knownRuntimeLines...)
 	writeEvidence(*prop, *tier, seed, rr, groups, nObl, nDis, byClass, byBackend, samples, undecided, knownPrinted, violations, extra)
 	fmt.Printf("govc: property %s tier %s: %d/%d obligations discharged, %d violations, %d undecided, %d known findings, %.1fs\n", *prop, *tier, nDis, nObl, violations, len(undecided), len(knownPrinted), rr.wall)
 	if violations > 0 {
